@@ -206,7 +206,7 @@ pub fn run(ctx: &Ctx) {
          Non-trivial: LENGTH mod 32 = 0, or DIRECTION differs from the repository test's, or LENGTH > 577.",
     );
     ctx.assume("reference EEA3/EIA3 (harness/src/refimpl/zuc.rs) anchored on EEA3 test set 1 and EIA3 test sets 1, 2 and the 577-bit set");
-    ctx.assume("inputs respect the stated preconditions: BEARER < 32, DIRECTION < 2, message has at least ceil(LENGTH/32) words, LENGTH >= 1 for EEA3");
+    ctx.assume("inputs respect the stated preconditions: BEARER < 32, DIRECTION < 2, message has at least ceil(LENGTH/32) words (LENGTH = 0 is a bit length like any other: zero words come back)");
 
     let grid = |lo: u32| {
         move || {
@@ -230,7 +230,7 @@ pub fn run(ctx: &Ctx) {
             v
         }
     };
-    ctx.exhaustive("eea_lengths_1_600", "EEA3: every LENGTH 1..=600 x 4 parameter draws (all bearers, both directions)", grid(1), check_eea);
+    ctx.exhaustive("eea_lengths_1_600", "EEA3: every LENGTH 0..=600 x 4 parameter draws (all bearers, both directions); LENGTH = 0 must give zero words, with or without surplus message words", grid(0), check_eea);
     ctx.exhaustive("eia_lengths_0_600", "EIA3: every LENGTH 0..=600 x 4 parameter draws (all bearers, both directions)", grid(0), check_eia);
 
     let patterned = |lo: u32| {
